@@ -4,6 +4,7 @@ import TantivyModel.Model.BoolCompile
 import TantivyModel.Model.PhraseSlop
 import TantivyModel.Model.OrderEnc
 import TantivyModel.Model.JsonRange
+import TantivyModel.Model.FastRange
 /-
 Line protocol of the C03 model.
 
@@ -12,6 +13,10 @@ Line protocol of the C03 model.
   C03 count <corpus> <query>…             implementation model: Σ `weightCount`
   C03 ok <query>…                         side conditions `okQ singleClauseGuard` of C03_compile_sound_partial
   C03 jrange <col i|u> <values supplied as i|u> <lk> <lt> <lv> <uk> <ut> <uv> <values>   JSON numeric range: impl bits | spec bits | column type as predicted
+  C03 ffrange <lk> <lv> <uk> <uv> <col min> <col max> <full 0|1>   scorer chosen by search_on_u64_ff: empty | all | range:st:en
+  C03 jmerge <t:min:max,…>                 column type of the merged segment (i | u | f)
+  C03 jwritten <s:v,…>                     write-time column type of values supplied as i64 / u64 (i | u | f)
+  C03 wf <corpus>                         hypotheses `Seg.wf` and `DocsWf` of C03_search_eq_answer_concrete on this corpus
   C03 guard                               does BooleanWeight::scorer's single-clause branch honour msm (extracted)
   C03 slop <on|off> <slop> <l1/l2/…>      the two phrase-slop algorithms on adjusted position lists
   C03 i64 <u64 bits> / C03 f64 <u64 bits> order-preserving encodings (on bit patterns)
@@ -188,6 +193,10 @@ def handle : List String → String
     | some sc, some top, some c =>
       perQuery qs (fun q => showNatList (if top then searchIdsTop leafTree singleClauseGuard sc c q else searchIds leafTree singleClauseGuard sc c q))
     | _, _, _ => "bad-op"
+  | ["wf", c] =>
+    match parseCorpus c with
+    | some c => showBool (c.all (fun s => docsWfB s.docs && s.alive.length == s.docs.length))
+    | none => "bad-op"
   | "ok" :: qs => perQuery qs (fun q => showBool (okQ singleClauseGuard q))
   | ["guard"] => showBool singleClauseGuard
   | "count" :: c :: qs =>
@@ -225,6 +234,39 @@ def handle : List String → String
       String.ofList (vs.map (fun v => if JsonRange.specMatch lo hi v then '1' else '0')) ++ "|" ++
       (if JsonRange.colOf (sup == "u") vs == col then "1" else "0")
     | _, _, _, _ => "bad-op"
+  | ["ffrange", lk, lv, uk, uv, mn, mx, full] =>
+    match parseBndN lk lv, parseBndN uk uv, mn.toNat?, mx.toNat?, parseB full with
+    | some lo, some hi, some mn, some mx, some full =>
+      match FastRange.classify lo hi mn mx full with
+      | .empty => "empty"
+      | .all => "all"
+      | .range st en => s!"range:{st}:{en}"
+    | _, _, _, _, _ => "bad-op"
+  | ["jmerge", srcs] =>
+    -- srcs: `t:min:max` separated by `,` with t ∈ i,u,f
+    let one (x : String) : Option JsonRange.Src :=
+      match x.splitOn ":" with
+      | [t, mn, mx] =>
+        let c : Option JsonRange.ColT3 := if t == "i" then some .i64 else if t == "u" then some .u64 else if t == "f" then some .f64 else none
+        match c, mn.toInt?, mx.toInt? with
+        | some c, some mn, some mx => some ⟨c, mn, mx⟩
+        | _, _, _ => none
+      | _ => none
+    match (srcs.splitOn ",").mapM one with
+    | some l => (match JsonRange.mergedCol l with | .i64 => "i" | .u64 => "u" | .f64 => "f")
+    | none => "bad-op"
+  | ["jwritten", vals] =>
+    -- vals: `s:v` separated by `,` with s ∈ i,u (supplied type)
+    let one (x : String) : Option (Bool × Int) :=
+      match x.splitOn ":" with
+      | [t, v] =>
+        match (if t == "i" then some false else if t == "u" then some true else none), v.toInt? with
+        | some b, some v => some (b, v)
+        | _, _ => none
+      | _ => none
+    match (vals.splitOn ",").mapM one with
+    | some l => (match JsonRange.writtenCol l with | .i64 => "i" | .u64 => "u" | .f64 => "f")
+    | none => "bad-op"
   | ["i64", v] =>
     match v.toNat? with
     | some v => toString (OrderEnc.i64_to_u64 (BitVec.ofNat 64 v)).toNat
